@@ -22,7 +22,7 @@ def determinism(workers, n=24):
     jobs = []
     j = 0
     for pid in pids:
-        k = n if ENGINE[pid] != "gfisim" else max(4, n // 4)
+        k = n if ENGINE[pid] != "gfisim" else max(4, n // 4)  # noqa
         for i in range(k):
             jobs.append({"pid": pid, "tier": "quick", "j": j, "seed": H(12345, pid, "det", i), "engine": ENGINE[pid]})
             j += 1
